@@ -175,10 +175,14 @@ func checkAllocators(c *Ctx, rule string) {
 	}
 	natomic := 0
 	// allocator state: package-level variables that are a sync/atomic value, or a struct made of sync/atomic values only
+	allocTypes := map[*types.Named]bool{}
 	for _, pk := range c.P.SSAPkgs {
 		for _, m := range pk.Members {
 			if g, ok := m.(*ssa.Global); ok && allAtomic(g.Type().(*types.Pointer).Elem()) {
 				natomic++
+				if nt, ok := g.Type().(*types.Pointer).Elem().(*types.Named); ok {
+					allocTypes[nt] = true
+				}
 			}
 		}
 	}
@@ -207,7 +211,9 @@ func checkAllocators(c *Ctx, rule string) {
 						cell = x.Pkg.Pkg.Name() + "." + x.Name()
 					}
 				case *ssa.FieldAddr:
-					if k, nt := typedFieldKey(x); k != "" && strings.HasPrefix(nt.Obj().Pkg().Path(), core.ModulePath) {
+					// a field of an allocator type (the type of a package-level allocator); atomic fields of other structs are
+					// ordinary synchronisation, not identifier allocation
+					if k, nt := typedFieldKey(x); k != "" && allocTypes[nt] {
 						cell = k
 					}
 				}
